@@ -17,6 +17,7 @@ type gateKey struct {
 var gateMu sync.Mutex
 var gates = map[gateKey]chan struct{}{}
 var gateAll = map[string]bool{} // point -> armed for every client
+var notifyAll = map[string]bool{} // point -> announce "AT <point> <id>" without holding the client
 
 func gateArm(point string, id int64) {
 	gateMu.Lock()
@@ -47,8 +48,17 @@ func gateRelease(point string, id int64) {
 	}
 }
 
+func gateNotify(point string) {
+	gateMu.Lock()
+	defer gateMu.Unlock()
+	notifyAll[point] = true
+}
+
 func gateWait(point string, id int64) {
 	gateMu.Lock()
+	if notifyAll[point] {
+		fmt.Printf("AT %s %d\n", point, id)
+	}
 	ch, ok := gates[gateKey{point, id}]
 	if !ok && gateAll[point] {
 		ch = make(chan struct{})
